@@ -529,7 +529,7 @@ fn walk_native(da: &[i8; 256], db: &[i8; 256]) {
             }
             if carry == 0 && out[31] < 128 { Some(out) } else { None }
         };
-        if let (Some(ab), Some(bb)) = (val(da), val(db)) {
+        let check = |ab: [u8; 32], bb: [u8; 32]| {
             let mut enc = [0x66u8; 32];
             enc[0] = 0x58;
             let minus_b = Ge::from_bytes(&enc).unwrap();
@@ -545,7 +545,23 @@ fn walk_native(da: &[i8; 256], db: &[i8; 256]) {
             let diff = super::super::scalar::muladd(&ra, &Scalar::from_bytes(&lm1), &rb);
             let expect = Ge::scalarmult_base(&diff).to_bytes();
             assert!(got == expect, "double_scalarmult: walk starts at the highest non-zero position (any of the 256) and visits every position down to 0");
+        };
+        if let (Some(ab), Some(bb)) = (val(da), val(db)) {
+            check(ab, bb);
         }
+        // fixed variants (a counterexample under recorder stubs need not denote scalars below 2^255): scalars whose sliding-window
+        // recoding carries into digit 255, long runs of ones, and small ones
+        let mut ones = [0xffu8; 32];
+        ones[31] = 0x7f;
+        let mut hi = [0u8; 32];
+        hi[31] = 0x7c;
+        let mut small = [0u8; 32];
+        small[0] = 0xb7;
+        small[1] = 0x03;
+        check(ones, small);
+        check(small, ones);
+        check(hi, ones);
+        check([0u8; 32], hi);
 }
 
 #[cfg_attr(kani, kani::proof)]
